@@ -1,4 +1,19 @@
 (* Token-level entry point for property C10: the shared history fold of
    Model/PoolEntry.v evaluating the C10 predicates (see props/C10.json). *)
 From Erbium Require Import Lib.Base Model.DhcpPool Model.PoolEntry.
-Definition check_C10 (ts : list N) : list N := check_pool 10 ts.
+(* kind 40 (end-to-end rig, scenario `dhcpflow`): an OFFER / ACK of the REAL binary captured on the wire and
+   the row of its yiaddr in /api/v1/leases.json read right after it:
+     [40; is_ack; option 51 present; its value; listed expiry - listed start (0: no such row); min; max]
+   A history line can never have this shape: its first token is the number of events, and 40 events need far
+   more than six further tokens. *)
+Definition check_rig_lease (is_ack present secs listed mn mx : N) : list N :=
+  if present =? 0 then v_viol 4
+  else if negb ((mn <=? secs) && (secs <=? mx)) then v_viol 1
+  else if negb (listed =? secs) then v_viol 2
+  else v_ok (200 + N.min is_ack 1).
+
+Definition check_C10 (ts : list N) : list N :=
+  match ts with
+  | [40; is_ack; present; secs; listed; mn; mx] => check_rig_lease is_ack present secs listed mn mx
+  | _ => check_pool 10 ts
+  end.
